@@ -5,6 +5,7 @@ import JT.Proof.AttStream
 import JT.Proof.FrameChecked
 import JT.Proof.Codec2
 import JT.Proof.UnescChecked
+import JT.Proof.Codec4
 /-!
 # C03 — decoders are total functions of their input
 
@@ -99,5 +100,15 @@ theorem decode_accesses_in_range (f : Bytes) : decodeC f = Frame.decode f := by
   cases Frame.unescape f with
   | none => rfl
   | some p => simp only [Frame.decodePlainC_eq]
+
+/-- the five vendor ("active safety") extension parsers, every dialect: 0x64, 0x65, 0x67, 0x70 never panic and accept
+exactly the contents of their fixed length; 0x66 — the open finding F03 — panics exactly on the contents described by
+`Codec4.ext66Panics` (40 bytes, or `40 + 9·count` bytes) and, with an exact-capacity buffer, accepts nothing at all -/
+theorem vendor_extensions (dl : AttStream.Dialect) (c : Bytes) :
+    Codec4.parseExt64 dl c ≠ .panic ∧ Codec4.parseExt65 dl c ≠ .panic ∧ Codec4.parseExt67 dl c ≠ .panic ∧
+    Codec4.parseExt70 dl c ≠ .panic ∧
+    (Codec4.parseExt66 dl c = .panic ↔ Codec4.ext66Panics c = true) ∧ Codec4.parseExt66 dl c ≠ .ok () :=
+  ⟨Codec4.parseExt64_ne_panic dl c, Codec4.parseExt65_ne_panic dl c, Codec4.parseExt67_ne_panic dl c,
+   Codec4.parseExt70_ne_panic dl c, Codec4.parseExt66_panic_iff dl c, Codec4.parseExt66_ne_ok dl c⟩
 
 end JT.C03
